@@ -155,8 +155,8 @@ func IsIntFrame(frame []byte) (int64, bool) {
 
 // WirePath is the abstract path of a full handshake as seen on the wire.
 type WirePath struct {
-	Hello       bool   `json:"hello"`        // first c2s frame starts with DC_AUTHENTICATE
-	Denied      bool   `json:"denied"`       // a server frame carries ReturnCode != AUTHORIZED
+	Hello       bool   `json:"hello"`  // first c2s frame starts with DC_AUTHENTICATE
+	Denied      bool   `json:"denied"` // a server frame carries ReturnCode != AUTHORIZED
 	DenyCode    string `json:"deny_code,omitempty"`
 	Offers      int    `json:"offers"`       // client bitmask frames (c2s int frames right after a server frame)
 	MethodBytes int    `json:"method_bytes"` // c2s bytes that are neither hello, offers nor application data
